@@ -10,6 +10,20 @@ from .world import World, Unsupported
 from . import ops, repo, contracts
 
 
+def _has_quant(t):
+    stack = [t]
+    seen = set()
+    while stack:
+        x = stack.pop()
+        if x.get_id() in seen:
+            continue
+        seen.add(x.get_id())
+        if z3.is_quantifier(x):
+            return True
+        stack.extend(x.children())
+    return False
+
+
 class ExcVal:
     def __init__(self, cls, msg=None):
         self.cls = cls
@@ -87,14 +101,16 @@ class SpecCtx:
         self.frame = frame
         self.facts = []
         self.guards = []
+        self.bound = {}       # quantifier-bound variables (visible inside old(...) too)
     def in_old(self):
         c = SpecCtx(self.old_env, self.old_heap, self.old_env, self.old_heap, self.st, self.frame)
         c.facts = self.facts
+        c.bound = self.bound
         return c
     def with_env(self, extra):
-        e = dict(self.env); e.update(extra)
-        c = SpecCtx(e, self.heap, self.old_env, self.old_heap, self.st, self.frame)
+        c = SpecCtx(self.env, self.heap, self.old_env, self.old_heap, self.st, self.frame)
         c.facts = self.facts
+        c.bound = dict(self.bound); c.bound.update(extra)
         return c
 
 
@@ -107,13 +123,21 @@ class Evaluator:
         self.frames = []
         self._solver = None
         self.spec_apps = []
+        self._qcache = {}
 
     # ------------------------------------------------------------ feasibility (pruning only)
     def feasible(self, pc):
+        """pruning only: quantified facts are left out (fewer hypotheses can only keep more paths)"""
         s = z3.Solver()
         s.set('timeout', 300)
         for c in pc:
-            s.add(c)
+            k = c.get_id()
+            q = self._qcache.get(k)
+            if q is None:
+                q = _has_quant(c)
+                self._qcache[k] = q
+            if not q:
+                s.add(c)
         return s.check() != z3.unsat
 
     def drain(self, st):
@@ -195,11 +219,9 @@ class Evaluator:
         g = frame.globals
         if name in g:
             mod = g.get('__name__', '?')
-            # a mutable process-global?  (defined in this module, or star-imported from its home)
-            for home in (mod,) + tuple(contracts.GLOBALS):
-                key = home + '.' + name if home == mod else home
-                if key in contracts.GLOBALS and key.rsplit('.', 1)[1] == name and key.rsplit('.', 1)[0] == mod:
-                    return st.heap.read_global(key, self.W.parse_type(contracts.GLOBALS[key]))
+            key = '%s.%s' % (mod, name)
+            if key in contracts.GLOBALS:      # a mutable process-global cell of this module
+                return st.heap.read_global(key, self.W.parse_type(contracts.GLOBALS[key]))
             return self.lift_const(g[name])
         if name in contracts.LEMMAS:
             return static(contracts.LEMMAS[name])
@@ -249,6 +271,10 @@ class Evaluator:
 
     def read_attr_obj(self, v, name, st, spec=False):
         """exec: list of (st, SV).  Object attribute: declared field, method (bound) or class constant."""
+        base = self.interface_method(v.ty.cls, name)
+        if base is not None:
+            val = static(base, recv=v)
+            return [(z3.BoolVal(True), val)] if spec else [(st, val)]
         groups = self.attr_candidates(v, name, st.pc)
         if not groups:
             raise Unsupported('attribute %s of %r not declared in the schema' % (name, v.ty))
@@ -267,10 +293,25 @@ class Evaluator:
                 out.append((s2, self._attr_value(gk, what, v, s2.heap)))
         return out
 
+    def interface_method(self, cls, name):
+        """the method `name` as declared for static type cls, if its contract is an interface contract"""
+        try:
+            a = inspect.getattr_static(cls, name)
+        except AttributeError:
+            return None
+        if isinstance(a, types.FunctionType) and repo.in_repo(a):
+            c = contracts.REG.get(repo.qualname_of(a))
+            if c is not None and c.interface_flag:
+                return a
+        return None
+
     def _attr_value(self, gk, what, v, heap):
         if gk[0] == 'field':
             fkey, ty = what
-            return heap.read_field(fkey, ty, v.term)
+            val = heap.read_field(fkey, ty, v.term)
+            if is_ref(ty) and ('f', fkey) not in heap.d:
+                val.py = 'H0'       # read from an array not written since entry
+            return val
         a = what
         if isinstance(a, (types.FunctionType,)):
             return static(a, recv=v)
@@ -354,7 +395,7 @@ class Evaluator:
                 v = SV(TObj(v.ty.cls), v.t)
             res = []
             for s2, val in self.read_attr_obj(v, name, s):
-                s2 = s2.assume(*self.W.type_facts(val, s2.heap))
+                s2 = s2.assume(*self.W.type_facts(val, s2.heap, s2.entry_heap))
                 res.append((s2, val))
             return res
         if isinstance(v.ty, TOpt):
@@ -435,9 +476,22 @@ class Evaluator:
                 raise Unsupported('unary op')
         return out
 
+    def unwrap_opt(self, st, v, exc=TypeError):
+        """an Optional operand used where a value is required: None raises (exceptional path), else the inner value"""
+        if isinstance(v.ty, TOpt):
+            st = self.need(st, (v.t[0], exc))
+            return st, SV(v.ty.inner, v.t[1:])
+        return st, v
+
     def ev_BinOp(self, e, st):
         out = []
         for s, (a, b) in self.ev_many([e.left, e.right], st):
+            s, a = self.unwrap_opt(s, a)
+            if s is None:
+                continue
+            s, b = self.unwrap_opt(s, b)
+            if s is None:
+                continue
             val, fail = ops.op_binop(e.op, a, b, s.heap)
             s2 = self.need(s, fail)
             if s2 is not None:
@@ -498,6 +552,13 @@ class Evaluator:
                 c = z3.Or([eq(left, self.lift_const(k)) for k in right.py.obj] + [z3.BoolVal(False)])
                 c = c if isinstance(op, ast.In) else z3.Not(c)
             else:
+                if isinstance(op, (ast.Lt, ast.LtE, ast.Gt, ast.GtE)):
+                    s2, left = self.unwrap_opt(s2, left)
+                    if s2 is None:
+                        continue
+                    s2, right = self.unwrap_opt(s2, right)
+                    if s2 is None:
+                        continue
                 c = ops.op_compare(op, left, right, s2.heap, self.W)
             s2 = self.drain(s2)
             if len(rest) == 1:
